@@ -53,7 +53,13 @@ pub fn run(ctx: &mut Ctx) {
         // encodings must deliver the real names
         let tree = if rng.chance(0.15) { files::fancy_names(&tree) } else { tree };
         let stem = format!("c16-{}-{}", ctx.shard, idx % 64);
-        let json_fg = files::write_json(rng, &tree);
+        let mut json_fg = files::write_json(rng, &tree);
+        // both formats allow whitespace around the document
+        let pad = *rng.pick(&["", "", "", "\n", "  ", "\r\n\r\n", "\t\n "]);
+        if !pad.is_empty() {
+            json_fg.text = format!("{}{}{}", pad, json_fg.text, *rng.pick(&["", "\n", " \n\n"]));
+            ctx.count("files-with-leading-whitespace", 1);
+        }
         let prep = match Prepared::new(&json_fg.tree) {
             Ok(p) => p,
             Err(e) => {
@@ -173,7 +179,10 @@ pub fn run(ctx: &mut Ctx) {
                 eopts.interior = false;
                 eopts.naming = Naming::Named;
                 eopts.cross_player_number_names = false;
-                let efg = files::write_efg(rng, &tree, &eopts);
+                let mut efg = files::write_efg(rng, &tree, &eopts);
+                if !pad.is_empty() {
+                    efg.text = format!("{}{}", pad, efg.text);
+                }
                 let epath = cli::write_game_file(&scratch, &stem, &efg, None);
                 let tpath = cli::write_game_file(&scratch, &format!("{}-j", stem), &json_fg, Some("txt"));
                 let t2path = cli::write_game_file(&scratch, &format!("{}-e", stem), &efg, Some("dat"));
